@@ -67,12 +67,16 @@ Definition dispatch (f : list N) (a : jv) : jv :=
   else if is f "categories_via_line" then
     match a with JL l => match jv_strs l with Some items => jstrs (categories_via_line items) | None => junsupported end
     | _ => junsupported end
+  else if is f "cat_items_ok" then
+    match a with JL l => match jv_strs l with Some items => jbool (cat_items_ok items) | None => junsupported end
+    | _ => junsupported end
   else if is f "direct_safe" then
     match a with JS l => jbool (direct_safe l) | _ => junsupported end
   else if is f "line_safe" then
     match a with JS l => jbool (line_safe l) | _ => junsupported end
   else if is f "c07_explore" then
-    JL [jxres direct_explore; jxres line_explore; jxres direct_explore_noguard; jxres line_explore_noguard]
+    JL [jxres direct_explore; jxres line_explore; jxres direct_explore_noguard; jxres line_explore_noguard;
+        jxres cat_explore]
   else if is f "dquote" then
     match a with JS l => JS (dquote l) | _ => junsupported end
   else if is f "q_join" then
